@@ -270,3 +270,8 @@ package dsl
 // The schema string of a protocol: a function of the protocol, the symbol table and the (unmodified) model.
 //@ func GetProtocolSchemaString
 //@   pure
+
+//@ func (*GeneralizedType).ToScalar
+//@   pure
+//@ func (*Array).HasKnownNumberOfDimensions
+//@   pure
